@@ -63,6 +63,7 @@ func (mi *MessageInfo) lazyUnmarshal(p pointer, num protoreflect.FieldNumber) {
 	if f == nil {
 		panic(fmt.Sprintf("lazyUnmarshal: field info for %v.%v", mi.Desc.FullName(), num))
 	}
+	verifLazy(verifLazyEnter, mi, p, num, pointer{}, pointer{})
 	lazy := *p.Apply(mi.lazyOffset).LazyInfoPtr()
 	start, end, found, _, multipleEntries := lazy.FindFieldInProto(uint32(num))
 	if !found && multipleEntries == nil {
@@ -78,7 +79,9 @@ func (mi *MessageInfo) lazyUnmarshal(p pointer, num protoreflect.FieldNumber) {
 	} else {
 		mi.unmarshalField(lazy.Buffer()[start:end], fp, f, lazy, lazy.UnmarshalFlags())
 	}
+	verifLazy(verifLazyDecoded, mi, p, num, fp.Elem(), pointer{})
 	p.Apply(f.offset).AtomicSetPointerIfNil(fp.Elem())
+	verifLazy(verifLazyCAS, mi, p, num, fp.Elem(), p.Apply(f.offset).AtomicGetPointer())
 }
 
 func (mi *MessageInfo) unmarshalField(b []byte, p pointer, f *coderFieldInfo, lazyInfo *protolazy.XXX_lazyUnmarshalInfo, flags piface.UnmarshalInputFlags) error {
